@@ -205,8 +205,11 @@ impl SqPackIndex {
                         path: directory_crc,
                     }
                 } else {
-                    // TODO: is this ever hit?
-                    panic!("This is unexpected, why is the file sitting outside of a folder?");
+                    // a file sitting outside of a folder: its directory is the empty string
+                    Hash::SplitPath {
+                        name: CRC.checksum(lowercase.as_bytes()),
+                        path: CRC.checksum(b""),
+                    }
                 }
             }
             IndexType::Index2 => Hash::FullPath(CRC.checksum(lowercase.as_bytes())),
